@@ -212,7 +212,8 @@ RECURSIVE ImplObs(_, _)
 ImplObs(st, toks) == IF toks = <<>> THEN <<>> ELSE <<Obs(st)>> \o ImplObs(ImplLine(st, Head(toks)), Tail(toks))
 
 ImplRead(D) == Settle(ImplFold(ImplInit, D.toks))
-ImplHooks(D) == ImplObs(ImplInit, D.toks)
+\* a document that consists of a byte-order mark only still is one (empty) line to the scanner
+ImplHooks(D) == IF D.toks = <<>> /\ D.bom THEN << <<1, 0, 0>> >> ELSE ImplObs(ImplInit, D.toks)
 
 ---------------------------------------------------------------------------
 (* Writer contract: the document denotes G (through RefRead) and cues are numbered 1..n *)
